@@ -9,8 +9,8 @@ LEVEL_TEXT = ("binImgs is compared bit-exactly with reshape block sums on intege
               "zoom entry points are checked for identity at unchanged size, node interpolation, exactness on random tensor-product "
               "polynomials of degree <= order (orders 1,3,5, real and complex, int / tuple / rectangular target sizes) and mutual "
               "agreement; azimuthal averages against direct ring means; encircled-energy curves for start-at-0, monotonicity, bound, "
-              "nearest-grid-point crossing and an analytic Gaussian, with default, integer and pixel-centre centres. Exploration.")
-LEVEL_NOTE = "Trusted: NumPy. Integer images are kept far from overflow (accumulation in the input dtype is documented behaviour)."
+              "nearest-grid-point crossing and an analytic Gaussian, with default, integer and pixel-centre centres. 64-bit integer frames with counts above 2^53 must bin to the exact integer sums. Exploration.")
+LEVEL_NOTE = "Trusted: NumPy. Integer images are kept a factor 8 or more from the end of their dtype (accumulation in the input dtype is documented behaviour)."
 RULE = "case = (function, shape, n | target size, order, dtype | image kind, fraction, centre); non-trivial when the image is non-constant; distinct by parameters"
 ASSUMPTIONS = ["zoom: square input arrays larger than the spline order", "encircled energy: non-negative images of even size"]
 REQUIRED = ["interpolation.py:binImgs", "interpolation.py:zoom", "interpolation.py:zoom_rbs", "psf.py:azimuthal_average", "psf.py:encircled_energy"]
